@@ -245,6 +245,43 @@ def _norm(e: ast.AST, spaces_: Set[str], keys: Set[str], locals_: Optional[Dict[
     return s
 
 
+class _Subst(ast.NodeTransformer):
+    def __init__(self, env: Dict[str, ast.AST]):
+        self.env = env
+
+    def visit_Name(self, node: ast.Name):
+        if isinstance(node.ctx, ast.Load) and node.id in self.env:
+            return _copy.deepcopy(self.env[node.id])
+        return node
+
+
+def _resolved_steps(stmts: List[ast.stmt]) -> List[ast.stmt]:
+    """The statements of one branch with its temporaries resolved (def-use): a local bound exactly once in the branch, by a plain
+    `name = value` statement of the branch's own statement list, whose value reads nothing that the branch rebinds, is replaced by that
+    value in the statements after it, and the binding itself is dropped when something after it reads the local.  What remains are the
+    steps with an effect, written over the branch's inputs: how many temporaries a branch spreads one step over makes no difference."""
+    stores: Dict[str, int] = {}
+    for s in stmts:
+        for x in ast.walk(s):
+            if isinstance(x, ast.Name) and isinstance(x.ctx, (ast.Store, ast.Del)):
+                stores[x.id] = stores.get(x.id, 0) + 1
+            elif isinstance(x, ast.AugAssign) and isinstance(x.target, ast.Name):
+                stores[x.target.id] = stores.get(x.target.id, 0) + 1
+    env: Dict[str, ast.AST] = {}
+    out: List[ast.stmt] = []
+    for k, s in enumerate(stmts):
+        s = _Subst(env).visit(_copy.deepcopy(s))
+        if isinstance(s, ast.Assign) and len(s.targets) == 1 and isinstance(s.targets[0], ast.Name) and stores.get(s.targets[0].id) == 1:
+            name = s.targets[0].id
+            read_later = any(isinstance(x, ast.Name) and x.id == name and isinstance(x.ctx, ast.Load) for t in stmts[k + 1:] for x in ast.walk(t))
+            stable = not any(isinstance(x, ast.Name) and x.id in stores for x in ast.walk(s.value))
+            if read_later and stable:
+                env[name] = s.value
+                continue
+        out.append(s)
+    return out
+
+
 def _space_local(fn: Fn, container: str) -> Optional[str]:
     """The local of fn holding one agent's space: bound to `<container>[...]`, or the value variable of a loop over
     `<container>.items()` (`container` is a parameter of fn or an attribute of self)."""
@@ -318,8 +355,10 @@ def _siblings(ck: Check, repo: Repo) -> None:
             if isinstance(last, ast.Name):
                 sp.add(last.id)
                 keys.discard(last.id)
-        # locals bound inside the branch are numbered in order of first binding: their spelling is irrelevant
-        bound = sorted((x for s in stmts for x in ast.walk(s) if isinstance(x, ast.Name) and isinstance(x.ctx, ast.Store)),
+        # temporaries are resolved first: the steps are compared over the branch's inputs, whatever the number of statements
+        stmts = _resolved_steps(stmts)
+        # the remaining locals bound inside the branch are numbered in order of first binding: their spelling is irrelevant
+        bound =sorted((x for s in stmts for x in ast.walk(s) if isinstance(x, ast.Name) and isinstance(x.ctx, ast.Store)),
                        key=lambda x: (x.lineno, x.col_offset))
         loc: Dict[str, str] = {}
         for x in bound:
@@ -675,9 +714,12 @@ def _ordering(ck: Check, repo: Repo, worker: Fn) -> None:
     ck.floor("C12.5", len(rets), 1, "return tuple of step_wait")
     appends = {}
     for c in calls_in(sw.node):
-        if last_attr(c) == "append" and isinstance(c.func.value, ast.Subscript) and c.args and isinstance(c.args[0], ast.Subscript) \
-                and isinstance(c.args[0].value, ast.Subscript):
-            appends[dotted(c.func.value.value)] = (const_value(c.args[0].value.slice), dotted(c.args[0].slice), dotted(c.func.value.slice))
+        if last_attr(c) == "append" and isinstance(c.func.value, ast.Subscript) and c.args and isinstance(c.args[0], ast.Subscript):
+            # <message>[k][agent], or <local>[agent] where the local is element k of the message (indexed or unpacked, in every definition)
+            n = cfgs.node_of(c)
+            ks = {const_value(v.slice) if isinstance(v, ast.Subscript) else None for _, v in _bound_values(cfgs, n, c.args[0].value)} if n is not None else set()
+            if isinstance(c.args[0].value, ast.Subscript) or (len(ks) == 1 and None not in ks):
+                appends[dotted(c.func.value.value)] = (ks.pop() if len(ks) == 1 else None, dotted(c.args[0].slice), dotted(c.func.value.slice))
     for r in rets:
         for k in (1, 2, 3):
             e = r.ast.value.elts[k]
@@ -692,6 +734,17 @@ def _ordering(ck: Check, repo: Repo, worker: Fn) -> None:
 
 
 # ------------------------------------------------------------------------------------------------
+def _bound_values(cfg: CFG, at: Node, e: ast.AST, hops: int = 4) -> List[Tuple[Node, ast.AST]]:
+    """(node, expression) for every expression `e` evaluated at `at` can stand for: a local whose reaching definitions are all plain bindings
+    stands for the values bound (each evaluated at its definition, temporaries of temporaries included); anything else stands for itself."""
+    if isinstance(e, ast.Name) and hops > 0:
+        defs = cfg.defs_reaching(at, e.id)
+        vals = [(d, cfg.value_of_def(d, e.id)) for d in defs if d.kind != "entry"]
+        if defs and len(vals) == len(defs) and all(v is not None for _, v in vals):
+            return [r for d, v in vals for r in _bound_values(cfg, d, v, hops - 1)]
+    return [(at, e)]
+
+
 def _slices(ck: Check, repo: Repo) -> None:
     wf = repo.fn(AV, "write_to_shared_memory")
     cfg = CFG(wf.node)
@@ -700,21 +753,25 @@ def _slices(ck: Check, repo: Repo) -> None:
     ck.floor("C12.6", len(copies), 3, "np.copyto sites in write_to_shared_memory", fn=wf)
     for c in copies:
         n = cfg.node_of(c)
-        dst = c.args[0]
-        ok = isinstance(dst, ast.Subscript) and isinstance(dst.slice, ast.Slice) and dst.slice.lower is not None and dst.slice.upper is not None
-        detail = ""
-        if ok:
-            lo, hi = tb.term(dst.slice.lower, n), tb.term(dst.slice.upper, n)
-            size = hi - lo  # the length of the range written; must be the member's element count and the stride of `index`
-            idx = tb.term(ast.Name(id="index", ctx=ast.Load()), n)
-            ok = lo == idx * size
-            sa = single_atom(tb, size)
-            okp = sa is not None and sa.kind == "call" and "prod" in sa.key and "shape" in sa.key
-            detail = f"[{lo.key()[:80]} : {hi.key()[:80]}], size = {size.key()[:80]}"
-            ok = ok and okp
+        # the destination and the source may be held in temporaries: every expression they can stand for is judged where it is evaluated
+        dsts = _bound_values(cfg, n, c.args[0])
+        ok, detail = bool(dsts), ""
+        for at, dst in dsts:
+            okd = isinstance(dst, ast.Subscript) and isinstance(dst.slice, ast.Slice) and dst.slice.lower is not None and dst.slice.upper is not None
+            if okd:
+                lo, hi = tb.term(dst.slice.lower, at), tb.term(dst.slice.upper, at)
+                size = hi - lo  # the length of the range written; must be the member's element count and the stride of `index`
+                idx = tb.term(ast.Name(id="index", ctx=ast.Load()), at)
+                okd = lo == idx * size
+                sa = single_atom(tb, size)
+                okp = sa is not None and sa.kind == "call" and "prod" in sa.key and "shape" in sa.key
+                detail = f"[{lo.key()[:80]} : {hi.key()[:80]}], size = {size.key()[:80]}"
+                okd = okd and okp
+            ok = ok and okd
         ck.ob("C12.6", wf, c, ok, "environment i writes exactly the flat range [i*size, (i+1)*size) with size = prod(member shape)", detail=detail)
         src = c.args[1]
-        okf = isinstance(src, ast.Call) and last_attr(src) == "flatten"
+        srcs = _bound_values(cfg, n, src)
+        okf = bool(srcs) and all(isinstance(v, ast.Call) and last_attr(v) == "flatten" for _, v in srcs)
         ck.ob("C12.6", wf, src, okf, "the observation is flattened (row-major) before it is written")
     ca = repo.fn(AV, "_create_memory_array")
     tb2 = TermBuilder(repo, ca, depth=0)
@@ -734,6 +791,44 @@ _PV = "agilerl/vector/pz_vec_env.py"
 _WR = "agilerl/wrappers/pettingzoo_wrappers.py"
 _W_COND = "                if all(\n                    [\n                        term | trunc\n                        for term, trunc in zip(terminated.values(), truncated.values())\n                    ]\n                ):"
 _WR_COND = "        if np.all(\n            [\n                term or trunc\n                for term, trunc in zip(terminations.values(), truncations.values())\n            ]\n        ):"
+_PLAIN_COPY = "            np.copyto(\n                dest[index * size : (index + 1) * size],\n                np.asarray(obs, dtype=dtype).flatten(),\n            )\n"
+_WRITE_BRANCHES = (
+    "        if isinstance(agent_space, spaces.Dict):\n            for key, subspace in agent_space.spaces.items():\n"
+    "                size = int(np.prod(subspace.shape))\n                dtype = subspace.dtype\n"
+    "                dest = np.frombuffer(shared_memory[agent][key].get_obj(), dtype=dtype)\n"
+    "                np.copyto(\n                    dest[index * size : (index + 1) * size],\n                    np.asarray(obs[key], dtype=dtype).flatten(),\n                )\n"
+    "        elif isinstance(agent_space, spaces.Tuple):\n            for i, subspace in enumerate(agent_space.spaces):\n"
+    "                size = int(np.prod(subspace.shape))\n                dtype = subspace.dtype\n"
+    "                dest = np.frombuffer(shared_memory[agent][i].get_obj(), dtype=dtype)\n"
+    "                np.copyto(\n                    dest[index * size : (index + 1) * size],\n                    np.asarray(obs[i], dtype=dtype).flatten(),\n                )\n"
+    "        else:\n            size = int(np.prod(agent_space.shape))\n            dtype = agent_space.dtype\n"
+    "            dest = np.frombuffer(shared_memory[agent].get_obj(), dtype=dtype)\n" + _PLAIN_COPY)
+_WRITE_HELPER_CALLS = (
+    "        if isinstance(agent_space, spaces.Dict):\n            for key, subspace in agent_space.spaces.items():\n"
+    "                {h}(shared_memory[agent][key], index, subspace, obs[key])\n"
+    "        elif isinstance(agent_space, spaces.Tuple):\n            for i, subspace in enumerate(agent_space.spaces):\n"
+    "                {h}(shared_memory[agent][i], index, subspace, obs[i])\n"
+    "        else:\n            {h}(shared_memory[agent], index, agent_space, obs)\n")
+_WRITE_HELPER = (
+    "\n\ndef {h}(member_array, index, member_space, member_value):\n    size = int(np.prod(member_space.shape))\n    dtype = member_space.dtype\n"
+    "    dest = np.frombuffer(member_array.get_obj(), dtype=dtype)\n    slot = dest[index * size : {hi}]\n"
+    "    flat_value = np.asarray(member_value, dtype=dtype).flatten()\n    np.copyto(slot, flat_value)\n")
+_RESET_RETURN = (
+    "        return (\n            (\n                {\n                    agent: deepcopy(self.observations[agent])\n"
+    "                    for agent in self.observations.keys()\n                }\n                if self.copy\n                else self.observations\n"
+    "            ),\n            infos,\n        )\n")
+_KEPT_METHOD = "_observations_for_caller"  # a name the analyser knows (this line): the front end leaves calls of such a method in place
+_COLLECT = (
+    "        return self.{h}(), infos\n\n    def {h}(self):\n        if {test}:\n            return self.observations\n"
+    "        return {{a: deepcopy(self.observations[a]) for a in self.observations.keys()}}\n")
+_PARENT_GATHER = (
+    "                for agent in self.agents:\n                    rewards[agent].append(env_step_return[0][agent])\n"
+    "                    terminations[agent].append(env_step_return[1][agent])\n                    truncations[agent].append(env_step_return[2][agent])\n"
+    "                infos = self._add_info(infos, env_step_return[3], env_idx)\n")
+_PARENT_UNPACK = (
+    "                {names} = env_step_return\n                for agent in self.agents:\n                    rewards[agent].append(env_rewards[agent])\n"
+    "                    terminations[agent].append(env_terms[agent])\n                    truncations[agent].append(env_truncs[agent])\n"
+    "                infos = self._add_info(infos, env_infos, env_idx)\n")
 VARIANTS = [
     ("reset-seed-zero-unseeded", _AV, "        if seed is None:\n            seed = [None for _ in range(self.num_envs)]", "        if not seed:\n            seed = [None for _ in range(self.num_envs)]", "fire", "C12.8"),
     ("info-masks-share-one-array", _AV, "            array_mask = vector_infos.get(\n                f\"_{key}\", np.zeros(self.num_envs, dtype=np.bool_)\n            )", "            array_mask = vector_infos.get(f\"_{key}\", new_mask)", "fire", "C12.9"),
@@ -791,6 +886,35 @@ VARIANTS = [
     ("wrapper-conditional-expression-inverted", _WR, _WR_COND + "\n            obs, infos = self.env.reset()\n",
      "        obs, infos = (obs, infos) if np.all(\n            [\n                term or trunc\n"
      "                for term, trunc in zip(terminations.values(), truncations.values())\n            ]\n        ) else self.env.reset()\n", "fire", "C12.4"),
+    # write_to_shared_memory: one step spread over temporaries, the three blocks merged into one module-level helper
+    ("write-plain-branch-temporaries-ok", _AV, _PLAIN_COPY,
+     "            slot = dest[index * size : (index + 1) * size]\n            flat_value = np.asarray(obs, dtype=dtype).flatten()\n            np.copyto(slot, flat_value)\n",
+     "silent", None),
+    ("write-plain-temporary-wrong-slot", _AV, _PLAIN_COPY,
+     "            slot = dest[index * size : (index + 1) * size + 1]\n            flat_value = np.asarray(obs, dtype=dtype).flatten()\n            np.copyto(slot, flat_value)\n",
+     "fire", "C12.6"),
+    ("write-plain-temporary-not-flattened", _AV, _PLAIN_COPY,
+     "            slot = dest[index * size : (index + 1) * size]\n            flat_value = np.asarray(obs, dtype=dtype)\n            np.copyto(slot, flat_value)\n",
+     "fire", "C12.6"),
+    ("write-tuple-temporary-drops-dtype", _AV,
+     "                np.copyto(\n                    dest[index * size : (index + 1) * size],\n                    np.asarray(obs[i], dtype=dtype).flatten(),\n                )\n",
+     "                slot = dest[index * size : (index + 1) * size]\n                flat_value = np.asarray(obs[i]).flatten()\n                np.copyto(slot, flat_value)\n",
+     "fire", "C12.3"),
+    ("write-one-slot-helper-ok", _AV, _WRITE_BRANCHES, (_WRITE_HELPER_CALLS + _WRITE_HELPER).format(h="_put_member", hi="(index + 1) * size"), "silent", None),
+    ("write-one-slot-helper-wrong-slot", _AV, _WRITE_BRANCHES, (_WRITE_HELPER_CALLS + _WRITE_HELPER).format(h="_put_member", hi="(index + 1) * size + 1"), "fire", "C12.6"),
+    # reset_wait: copy / no-copy decided in a private method with an early return
+    ("copy-mode-early-return-helper-ok", _AV, _RESET_RETURN, _COLLECT.format(h="_gather_batch", test="not self.copy"), "silent", None),
+    ("copy-mode-early-return-helper-inverted", _AV, _RESET_RETURN, _COLLECT.format(h="_gather_batch", test="self.copy"), "fire", "C12.7"),
+    ("copy-mode-early-return-method-not-inlined-ok", _AV, _RESET_RETURN, _COLLECT.format(h=_KEPT_METHOD, test="not self.copy"), "silent", None),
+    ("copy-mode-early-return-method-not-inlined-inverted", _AV, _RESET_RETURN, _COLLECT.format(h=_KEPT_METHOD, test="self.copy"), "fire", "C12.7"),
+    ("copy-mode-temporary-ok", _AV, _RESET_RETURN,
+     "        if self.copy:\n            batch = {a: deepcopy(self.observations[a]) for a in self.observations.keys()}\n        else:\n            batch = self.observations\n"
+     "        return batch, infos\n", "silent", None),
+    ("copy-mode-temporary-undecided", _AV, _RESET_RETURN,
+     "        batch = self.observations\n        if self.copy:\n            infos = dict(infos)\n        return batch, infos\n", "fire", "C12.7"),
+    # step_wait: the worker's message unpacked once instead of indexed
+    ("parent-unpack-ok", _AV, _PARENT_GATHER, _PARENT_UNPACK.format(names="env_rewards, env_terms, env_truncs, env_infos"), "silent", None),
+    ("parent-unpack-swapped", _AV, _PARENT_GATHER, _PARENT_UNPACK.format(names="env_rewards, env_truncs, env_terms, env_infos"), "fire", "C12.5"),
 ]
 
 
@@ -855,6 +979,35 @@ def _info_masks(ck: Check, repo: Repo) -> None:
               construct="_add_info: default mask of a new key")
 
 
+def _copy_cases(sc: _Scope, at: Node, e: ast.AST, pol: Optional[bool] = None, hops: int = 4) -> List[Tuple[Optional[bool], ast.AST]]:
+    """The expressions `e` (evaluated at `at`) can stand for, each with the value `self.copy` is known to have where the expression is
+    evaluated (None: not known).  The mode is decided by a conditional expression on `self.copy`, by `if` tests on it that dominate the
+    binding of a temporary (either polarity, early returns included: guards_at), or inside a local helper whose returned values are judged in
+    the same way.  A mode once decided is kept for the temporaries the expression is built from."""
+    known = {p for g, p, _ in sc.cfg.guards_at(at) if dotted(g) == "self.copy"}
+    here = known.pop() if len(known) == 1 else None
+    if pol is not None and here is not None and here != pol:
+        return []  # bound under the other mode: not a value of this case
+    pol = here if pol is None else pol
+    if isinstance(e, ast.IfExp):
+        g, p = e.test, True
+        while isinstance(g, ast.UnaryOp) and isinstance(g.op, ast.Not):
+            g, p = g.operand, not p
+        if dotted(g) == "self.copy":
+            if pol is not None:
+                return _copy_cases(sc, at, e.body if pol == p else e.orelse, pol, hops)
+            return _copy_cases(sc, at, e.body, p, hops) + _copy_cases(sc, at, e.orelse, not p, hops)
+    if isinstance(e, ast.Name) and hops > 0:
+        defs = sc.cfg.defs_reaching(at, e.id)
+        vals = [(d, sc.cfg.value_of_def(d, e.id)) for d in defs if d.kind != "entry"]
+        if defs and len(vals) == len(defs) and all(v is not None for _, v in vals):
+            return [c for d, v in vals for c in _copy_cases(sc, d, v, pol, hops - 1)]
+    inner = sc.helper_body(e, at) if hops > 0 else None
+    if inner is not None and inner[0].returns():
+        return [c for r, v in inner[0].returns() for c in _copy_cases(inner[0], r, v, pol, hops - 1)]
+    return [(pol, e)]
+
+
 def _copy_mode(ck: Check, repo: Repo) -> None:
     alloc, why = _reader_allocates(repo)
     ck.note("C12.7_reader_allocates", [alloc, why])
@@ -862,14 +1015,19 @@ def _copy_mode(ck: Check, repo: Repo) -> None:
         fn = repo.fn(AV, f"AsyncPettingZooVecEnv.{name}")
         rets = [n for n in walk_no_nested(fn.node) if isinstance(n, ast.Return) and isinstance(n.value, ast.Tuple)]
         ck.floor("C12.7", len(rets), 1, f"return tuple of {name}")
+        sc = _Scope(repo, fn, fn.node)
         for r in rets:
             obs = r.value.elts[0]
-            if not (isinstance(obs, ast.IfExp) and dotted(obs.test) == "self.copy"):
+            at = sc.cfg.node_of(r.value)
+            cases = _copy_cases(sc, at, obs) if at is not None else []
+            if not cases or any(pol is None for pol, _ in cases) or {pol for pol, _ in cases} != {True, False}:
                 ck.ob("C12.7", fn, obs, False, f"{name}: the observation element distinguishes copy and no-copy mode", detail=short(obs, 80))
                 continue
-            body = obs.body
-            deep = any(isinstance(x, ast.Call) and call_name(x).split(".")[-1] in ("deepcopy", "copy") for x in ast.walk(body))
-            ck.ob("C12.7", fn, body, deep or alloc,
-                  f"{name}: with copy=True the caller receives arrays that do not alias the shared observation buffer",
-                  detail=("no deep copy at the return site and " + why + ": a previously returned observation changes when the environments step again"))
-            ck.ob("C12.7", fn, obs.orelse, dotted(obs.orelse) == "self.observations", f"{name}: with copy=False the live view is returned (documented)")
+            for pol, v in cases:
+                if pol:
+                    deep = any(isinstance(x, ast.Call) and call_name(x).split(".")[-1] in ("deepcopy", "copy") for x in ast.walk(v))
+                    ck.ob("C12.7", fn, v, deep or alloc,
+                          f"{name}: with copy=True the caller receives arrays that do not alias the shared observation buffer",
+                          detail=("no deep copy at the return site and " + why + ": a previously returned observation changes when the environments step again"))
+                else:
+                    ck.ob("C12.7", fn, v, dotted(v) == "self.observations", f"{name}: with copy=False the live view is returned (documented)")
